@@ -283,6 +283,12 @@ class PDFXRefStream(PDFBaseXRef):
             (_, stream) = parser.nextobject()
         except PSEOF:
             raise PDFNoValidXRef("Unexpected EOF - file corrupted?")
+        except PDFException as e:
+            # What stands at this position is not a cross-reference stream:
+            # e.g. its would-be dictionary is an indirect reference, which
+            # cannot be resolved before any cross-reference section is loaded
+            # ("PDFDocument is not initialized").
+            raise PDFNoValidXRef("No cross-reference stream here: %s" % e)
         if not isinstance(stream, PDFStream) or stream.get("Type") is not LITERAL_XREF:
             raise PDFNoValidXRef("Invalid PDF stream spec.")
         size = resolve1(stream.get("Size"))
